@@ -12,6 +12,7 @@ mod c11;
 mod c12;
 mod c13;
 mod c14;
+mod c08;
 mod c10;
 pub mod modgen;
 mod c16;
@@ -67,6 +68,7 @@ fn main() {
         ("gen", "C12") => c12::gen(&a),
         ("gen", "C13") => c13::gen(&a),
         ("gen", "C14") => c14::gen(&a),
+        ("gen", "C08") => c08::gen(&a),
         ("gen", "C10") => c10::gen(&a),
         ("gen", "C16") => c16::gen(&a),
         ("gen", "C19") => c19::gen(&a),
